@@ -20,7 +20,7 @@ RULE = (
     "of declaration lines equals one per member with the title/type of the nearest configured class; the "
     "multiset of relation lines between two member titles equals one per internal link as `title(v1) "
     "<v1side>--<v2side> title(v2)` with the options of the link's nearest configured class; every other relation "
-    "line corresponds to an existing link of a member; empty universe => None.  Non-trivial = >= 2 internal links "
+    "line corresponds to an existing link of a member; empty universe => None.  Every case renders twice: after the first rendering the vertices' title attributes are changed, one member leaves (from the vertex side) and one joins, and the second rendering must show the new state.  Non-trivial = >= 2 internal links "
     "of different classes, or an internal self-loop, or a class resolved through the MRO; distinct = distinct case value."
 )
 ASSUMPTIONS = [
@@ -76,9 +76,19 @@ def nearest(cls, options):
 
 
 def check_case(case):
+    vs, ls, u = render.build(case)
+    info = _check_render(case, vs, ls, u)
+    if render.perturb(case, vs, ls, u):
+        # a second rendering of the same universe after attributes / membership changed must show the NEW state
+        info2 = _check_render(case, vs, ls, u)
+        info["classes"] = sorted(set(info["classes"]) | {"re-rendered-after-change"})
+        info["nt"] = info["nt"] or info2["nt"]
+    return info
+
+
+def _check_render(case, vs, ls, u):
     from edgegraph.output import plantuml
 
-    vs, ls, u = render.build(case)
     options, flags = make_options(case["opt"], case["extra"])
     if flags["urf"]:
         from edgegraph.structure import Vertex
